@@ -68,6 +68,8 @@ def wiring_runs(P):
         elif levels_kind == "list":
             lv = Tup([alg.sym("lvl_a", integer=True), alg.sym("lvl_b", integer=True)], "list")
         ov["config.domain.output_levels"] = lv
+        if levels_kind == "none" and not full_output:
+            ov["config.domain.halo"] = None  # some runs without a configured halo: the default is the solver's to resolve
         ov["config.domain.full_output"] = full_output
         ov["config.met.z0"] = alg.sym("config.met.z0", pos=True) if z0_given else None
         ov["config.met.timestamps"] = PyList("config.met.timestamps") if met_list else None
@@ -135,6 +137,12 @@ def wire_obligations(P, run):
     for fname, bound, supplied, node in log:
         calls.setdefault(fname, []).append((bound, supplied, node))
     cfg, tower, sy = run["cfg"], run["tower"], run["syms"]
+    # the run reads its configuration: a field written back (a default resolved into the caller's DomainConfig, ...) changes what
+    # the next run with the same object - or a copy made with dataclasses.replace - computes
+    owned = [cfg] + [v for v in cfg.attrs.values() if isinstance(v, Opaque)] + [tower]
+    wr = [e for e in rets[0].events if e[0] == "attr-store" and len(e[2]) > 3 and any(e[2][3] is o for o in owned)]
+    obs.append(req_ob("R-WIRE", site0, "the run leaves the caller's configuration and tower objects as it found them (%s)" % tag, not wr,
+                      detail="; ".join("line %s: %s.%s is assigned" % (e[1], e[2][0], e[2][1]) for e in wr[:2]) or None, key={"clause": "config-unchanged"}))
     dom, sol = cfg.attrs["domain"].attrs, cfg.attrs["solver"].attrs
 
     def one(fname, want=1):
@@ -212,7 +220,15 @@ def wire_obligations(P, run):
         edge(f, b, "meas_pt", Tup([tower.attrs["x"], tower.attrs["y"]]), "(tower.x, tower.y)")
         edge(f, b, "footprint", sol["footprint"], "config.solver.footprint")
         edge(f, b, "analytic", sol["analytic"], "config.solver.analytic")
-        edge(f, b, "halo", dom["halo"], "config.domain.halo")
+        if dom["halo"] is None:
+            # no halo configured: the solver's own default applies - handing on None, or the value of that default rule
+            # (the larger domain edge) resolved beforehand, is the same call
+            got = b.get("halo", None)
+            okh = got is None or (isinstance(got, Expr) and got.eq(alg.fmax(dom["xmax"], dom["ymax"])))
+            obs.append(req_ob("R-WIRE", site0 + "::call of %s" % f, "%s.halo receives no halo, or the solver's own default max(xmax, ymax), when none is configured (%s)" % (f, tag), okh,
+                              detail=None if okh else "got %s" % show(got), key={"callee": f, "formal": "halo"}))
+        else:
+            edge(f, b, "halo", dom["halo"], "config.domain.halo")
         edge(f, b, "precision", sol["precision"], "config.solver.precision")
         edge(f, b, "cache", sy["cache"], "the cache argument")
         obs.append(req_ob("R-WIRE", site0 + "::call of " + f, "background concentration is left at its default (%s)" % tag, "srf_bg_conc" not in sup))
